@@ -133,6 +133,7 @@ type VC struct {
 	frameWhole  map[string]bool
 	frameN      int
 	curFrame    *Frame
+	lastNames   map[string]bool // callee names whose most recent call position is tracked (lastcall(...))
 	countNames  map[string]bool // callee names whose executions are counted (mentioned in calls(...) of the contract)
 	prop        string          // property being checked ("" = all clauses are used)
 	used        map[string]bool // contracts applied modularly
